@@ -69,7 +69,7 @@ def run_case(case, rng):
     hk, h = make_heuristic(rng, arr, sol, gamma)
     if tie_family and rng.random() < 0.7:
         hk, h = "zero", {s: 0.0 for s in arr.S}
-    margin = rng.choice([1e-1, 1e-2, 1e-2, 1e-4])
+    margin = rng.choice([1e-1, 1e-2, 1e-2, 1e-4] * 2 + [0.0, 1.0])     # and the end point 0 / a coarse whole-number margin
     seed = rng.choice([0, 1, 7, rng.randrange(2 ** 31)])
     rao = rng.random() < 0.5
     init_abs = [s for s, p in sp.init if s in sp.flag]
@@ -104,8 +104,9 @@ def run_case(case, rng):
 
     if tie_family:
         rao = rng.random() < 0.8
+    extra_kw = dict(iterations=300) if margin == 0.0 else {}    # exact convergence may never come: bounded number of trials
     planner = LRTDP(heuristic=lambda s: h[s], bellman_error_margin=margin, randomize_action_order=rao,
-                    event_listener_class=Probe, seed=seed)
+                    event_listener_class=Probe, seed=seed, **extra_kw)
     reuse = rng.random() < 0.3
     if reuse:
         # the same planner object first plans on a sibling problem over the SAME state labels in which one more
@@ -147,6 +148,14 @@ def run_case(case, rng):
     case.sample = dict(spec=sp.describe(), config=case.params, trials=stats["trials"], timesteps=stats["steps"],
                        touched_states=len(res.V), initial_value=float(res.initial_value))
 
+    if margin == 0.0 and getattr(res, "converged", None) is False:
+        # ran out of trials before every residual was exactly 0: only the upper-bound clause (checked online) applies
+        case.count("not_converged_at_margin_0")
+        for s, v in list(res.V.items()):
+            case.check(v >= Vstar[s] - tol, "final-value-below-optimal", f"V[{s!r}]={v!r} V*={Vstar[s]!r}")
+        return
+    if margin == 0.0:
+        case.count("converged_at_margin_0")
     for s, p in sp.init:
         case.check(bool(res.solved[s]), "initial-state-not-solved", repr(s))
     for s, v in list(res.V.items()):
